@@ -36,7 +36,18 @@ fn tol<T: Fl>() -> f64 {
 /// function on top), measured at 2.1e-4 for white in f32 on the pinned tree against ≤ 2e-5 for
 /// every other node. Paths through them get 10× the f32 tolerance (still ≥ 1 order below a
 /// wrong constant or branch, which moves colours by ≥ 1e-2 there). f64 is not widened.
+/// The CIE / Ok family without RGB: conversions among XYZ, xyY, L*a*b*, LCh(ab), Oklab, Oklch, Okhsl,
+/// Okhsv, Okhwb use only the white point, exact formulas and the Oklab matrices, which are published
+/// (and stored) with their inverses to >= 10 digits — none of the 7-digit RGB matrices that set the
+/// general f64 tolerance. In f64 such paths are held to 1e-9 (measured on the unchanged tree: every
+/// cycle among them <= 1e-10 on the dense lattice).
+fn exact_family(k: &Kind) -> bool {
+    matches!(k, Kind::Xyz(_) | Kind::Yxy(_) | Kind::Lab(_) | Kind::Lch(_) | Kind::Oklab | Kind::Oklch | Kind::Okhsl | Kind::Okhsv | Kind::Okhwb)
+}
 fn tol_path<T: Fl>(path: &[&Kind]) -> f64 {
+    if T::NAME == "f64" && path.iter().all(|k| exact_family(k)) {
+        return 1.0e-9;
+    }
     if T::NAME == "f32" && path.iter().any(|k| is_ok_cyl(k)) {
         10.0 * tol::<T>()
     } else {
